@@ -395,6 +395,14 @@ class Assembler:
             if l.lstrip().startswith("#[derive("):
                 lines.pairs.insert(k + 1, ("#[verifier::external_derive]", o))
                 break
+        if "+pubfields" in extra_attr:
+            # the struct's private fields are widened to `pub` for the verifier's visibility rules only (rule D4c; no effect on behaviour)
+            extra_attr = extra_attr.replace("+pubfields", "").strip()
+            for k, (l, o) in enumerate(lines.pairs):
+                mm = re.match(r"(\s+)(?!pub\b)([a-z_][A-Za-z0-9_]*\s*:)", l)
+                if mm and o[0] == "src":
+                    lines.pairs[k] = (l[: mm.end(1)] + "pub " + l[mm.end(1):], o)
+            log.append({"rule": "D4c", "before": "(private fields)", "after": "pub fields"})
         if "+pub" in extra_attr:
             # visibility widened for the verifier's module rules only (rule D4c; no effect on behaviour)
             extra_attr = extra_attr.replace("+pub", "").strip()
@@ -441,6 +449,18 @@ class Assembler:
             rule_D3(body_lines, log)
         if "D32" not in norules:
             rule_D32(body_lines, log)
+        if "D33" not in norules and header is None and re.search(r"\(\s*mut self\b", sig_lines.text()):
+            # D33: a by-value `mut self` receiver (the verifier does not take it) => `self` moved into a mutable local
+            # `this` at the top of the body; every `self` in the body then reads `this`
+            t = sig_lines.text()
+            mm = re.search(r"\(\s*mut self\b", t)
+            sig_lines.replace_span(mm.start(), mm.end(), mm.group(0).replace("mut self", "self"))
+            for k, (l, o) in enumerate(body_lines.pairs):
+                if o[0] == "src":
+                    body_lines.pairs[k] = (re.sub(r"(?<![A-Za-z0-9_])self(?![A-Za-z0-9_])", "this", l), o)
+            l0, o0 = body_lines.pairs[0]
+            body_lines.pairs[0] = (l0.replace("{", "{ let mut this = self;", 1), o0)
+            log.append({"rule": "D33", "before": "mut self", "after": "self; let mut this = self; (self => this in the body)"})
         ret = None
         for w, a, content in blk.sections:
             if w == "label":
